@@ -154,7 +154,12 @@ func GenPools(r *simrt.Rand, size int) *Pools {
 			p.S[path] = subS(r, s, n)
 			if path != "Raw" && r.Chance(1, 5) {
 				// strings that are not valid UTF-8 (one or two adjacent bad bytes) in every fifth pool
-				p.S[path] = append(p.S[path], []string{"caf\uE0E9", "\uE0FF\uE0FE", "k\uE0FF\uE0FE", "a\uE0C3"}[r.Intn(4)])
+				if r.Bool() {
+					// two values that differ only in the number of adjacent bad bytes
+					p.S[path] = append(p.S[path], "k\uE0FF\uE0FE", "k\uE0FF")
+				} else {
+					p.S[path] = append(p.S[path], []string{"caf\uE0E9", "\uE0FF\uE0FE", "a\uE0C3"}[r.Intn(3)])
+				}
 			}
 		}
 	}
